@@ -3,6 +3,8 @@
 import json, os
 HERE = os.path.dirname(os.path.dirname(os.path.abspath(__file__)))
 
+TS = ("Trusted: datetimes handed to zones are timestamp-backed stand-ins (engine/tsdt.py, a datetime subclass; validated against real "
+      "datetime each run); whole seconds; each path witness replayed natively on real datetimes.")
 E1 = "CrossHair-core symbolic execution of the real dateutil functions, z3 deciding every path; path tree exhausted per cell"
 CHECKS = {
  # id: (technique, level category, level text, level_note, design_ref, engine)
